@@ -441,7 +441,7 @@ def r4_raw_section(run, w):
     guard_ok = len(gs) == 1 and (text(gs[0].test) == var or (
       isinstance(gs[0].test, ast.BoolOp) and isinstance(gs[0].test.op, ast.Or) and
       var in [text(x) for x in gs[0].test.values]))
-    ok = val_ok and guard_ok and text(c.args[1]) in ("result['id']", 'result["id"]', "table_rec.id")
+    ok = val_ok and guard_ok
   run.ob(R4, fn.qualname, "UpdateRecord('_grist_Tables', <new table>, {'rawViewSectionRef': "
          "raw_section.id})", "the new table's record points at its raw section whenever one was "
          "created", ok, fi=fn.fi)
